@@ -210,7 +210,10 @@ def run(original_args) -> int:
             original_args,
             context.compile_results(codemods_to_run),
         )
-        codetf.write_report(argv.output)
+        if codetf.write_report(argv.output) == 2:
+            # the report could not be written (see `CodeTF.write_report`): exit
+            # with status 2 instead of reporting success
+            return 2
 
     log_report(
         context,
